@@ -11,9 +11,11 @@ from .. import apilevel as A, docx_builder as B, gen_html, gen_xml, oracle_html 
 # through the public API: paragraphs and runs whose styles are mapped to nested NON-fresh paths (two run styles share one
 # path), with empty runs and empty paragraphs in between; unmapped paragraphs become the default fresh p
 API_MAP = "\n".join(["p.Q => blockquote > div.q", "p.C => pre:separator('\\n')", "p.D => div.q", "p.N => ul|ol > li",
+                      "p.E => pre", "p.G => pre:separator(', ')",   # the same element three times: each merge is preceded by the separator of the element merged in, if it has one
                       "p.F => section:fresh:separator('|')",       # :fresh wins over :separator: such elements never merge
                       "r.X => span.x", "r.Y => em > span.y", "r.Z => span.x", "r.W => em"])
-API_PSTYLES = [None, None, "Q", "Q", "C", "C", "D", "N", "F", "F"]
+API_PSTYLES = [None, None, "Q", "Q", "C", "C", "D", "N", "F", "F", "E", "E", "G", "C", "E"]
+PRE_SEP = {"C": "\n", "E": "", "G": ", "}
 API_RSTYLES = [None, "X", "X", "Y", "Z", "W"]
 
 
@@ -52,7 +54,7 @@ def unmerged_siblings(forest):
 def api_stream(ctx, dist):
     rng = ctx.rng
     terms, metas = [], []
-    styles = [X("w:style", {"w:type": "paragraph", "w:styleId": s}, [X("w:name", {"w:val": "Style " + s})]) for s in "QCDNF"] + \
+    styles = [X("w:style", {"w:type": "paragraph", "w:styleId": s}, [X("w:name", {"w:val": "Style " + s})]) for s in "QCDNFEG"] + \
              [X("w:style", {"w:type": "character", "w:styleId": s}, [X("w:name", {"w:val": "Char " + s})]) for s in "XYZW"]
     for i in range(600 if ctx.thorough else 80):
         pkg = gen_xml.Package()
@@ -80,6 +82,28 @@ def api_stream(ctx, dist):
             if not bad and n_sections != exp_sections:
                 ctx.violation("oracle", ":fresh elements were merged (or lost): %d <section> elements for %d kept paragraphs mapped to section:fresh:separator" % (n_sections, exp_sections),
                               dict(meta, observed=html_.value[:600], fresh_sections=exp_sections), True)
+            if not bad and opts["ignore_empty_paragraphs"]:
+                # separators: consecutive kept paragraphs mapped to pre (three mappings, same element, different separators) form ONE pre whose
+                # text is the paragraphs' texts, each later one preceded by ITS OWN mapping's separator
+                exp_pre, cur = [], None
+                for p_ in pkg.body:
+                    ps_ = p_.find_child_or_null("w:pPr").find_child_or_null("w:pStyle").attributes.get("w:val")
+                    txt = "".join(c_.value for r_ in p_.children if r_.name == "w:r" for t_ in r_.children if t_.name == "w:t" for c_ in t_.children)
+                    if not txt:
+                        continue            # dropped: its neighbours become adjacent
+                    if ps_ in PRE_SEP:
+                        cur = txt if cur is None else cur + PRE_SEP[ps_] + txt
+                    elif cur is not None:
+                        exp_pre.append(cur)
+                        cur = None
+                if cur is not None:
+                    exp_pre.append(cur)
+                got_pre = [O.text_of_parsed(nd["children"]) for nd in forest_ if nd.get("name") == "pre"]
+                if got_pre != exp_pre:
+                    ctx.violation("oracle", "paragraphs merged into one element are not joined by the separator of the mapping merged in: pre texts %r, expected %r" % (got_pre, exp_pre),
+                                  dict(meta, observed=html_.value[:600]), True)
+                elif any(len(x) > 1 for x in exp_pre):
+                    dist["api_separator_joins"] = dist.get("api_separator_joins", 0) + 1
             if bad:
                 ctx.violation("oracle", "adjacent sibling elements <%s %s> that are not :fresh were not merged" % bad,
                               dict(meta, observed=html_.value[:600]), True)
